@@ -20,13 +20,19 @@ TRUSTED_BASE = [
     "Coq 8.16.1 kernel + vm_compute (case evaluation and the concrete _refuted witnesses); no native_compute",
     "axioms: none (Print Assumptions: Closed under the global context for every C10 theorem)",
     "Model/SortSearch.v is a hand transcription of _sort_coo, sort, _compute_minmax_args, _arg_minmax_common, "
-    "unique_values, unique_counts, COO.nonzero, argwhere, where(cond); its tie to the source is the correspondence "
-    "run of this file (kernel level on the compiled kernels, API level on every public function)",
+    "unique_values, unique_counts, COO.nonzero, argwhere, where(cond); it is tied to the source (a) by "
+    "tools/sitegen/sortsearch.py, which regenerates the normalised text of every line of these functions into "
+    "Gen/S_sortsearch.v on every run, Props/C10.v proving it equal to the pinned text of Model/SortSearchSrc.v "
+    "(any edit of these functions breaks the theorems kernel_sources_pinned / wrapper_sources_pinned), and (b) by the "
+    "correspondence run of this file (kernel level on the compiled kernels, API level on every public function)",
     "Spec/NpSort.v as a description of numpy.sort/argmax/argmin/unique_values/unique_counts/nonzero/argwhere "
     "(and of the Array-API `descending` flag), cross-checked against NumPy on every generated case",
-    "wrapper-level equality model = Spec is PROVED for sort on 1-d and 2-d inputs (every valid axis) and for "
-    "argmax/argmin on 2-d inputs along the first axis (both keepdims); the remaining plumbing paths (sort on >2-d, "
-    "argmax/argmin with axis=None, along the last axis, on 1-d and >2-d inputs) are established by correspondence only",
+    "wrapper-level equality model = NumPy meaning is PROVED for sort (any ndim >= 1, any valid axis: sort_nd) and for "
+    "argmax/argmin (any ndim >= 2 with an axis: argminmax_nd; 1-d: argminmax_1d; axis=None: argminmax_axis_none; "
+    "empty reduced axis rejected: argminmax_empty_rejected), stated pointwise on index tuples (den); the plumbing steps "
+    "use agent-c08's generic remapping theorems of Proofs/ShapeOpsL.v (imported read-only)",
+    "the reading of a pointwise (den-level) statement as equality of the row-major dense arrays of Spec/NpSort.v "
+    "(np_sort_axis / np_argbest_axis on todense) is checked by the judge on every generated case, not proved",
     "correspondence harness tools/props/c10.py, tools/vlib.py, Corr/C10Judge.v, Corr/SArr.v",
 ]
 ASSUMPTIONS = [
